@@ -4,7 +4,7 @@ from hypothesis import strategies as st
 
 from vf.core import Decline, Prop, Violation, case_hash, innermost_funsor_frame
 from vf.gen import Opts, exprs
-from vf.lang import OutOfDomain, Oracle, close, int_points, npoints, real_points, show, size_of, typeof, walk
+from vf.lang import NotNormalizable, OutOfDomain, Oracle, Undecided, close, int_points, npoints, real_points, show, size_of, typeof, walk
 
 MAX_POINTS = 2048
 
@@ -149,6 +149,8 @@ def evaluate_against_oracle(node, f, stt, what, require_complete=False, nreal=3,
                 want = orc.ev(node, pt)
             except OutOfDomain:
                 raise Decline("oracle-nan(outside op domain)")
+            except (Undecided, NotNormalizable) as u:
+                raise Decline("oracle-undecided:" + str(u)[:50])
             if np.isnan(np.asarray(want, dtype=float)).any():
                 raise Decline("oracle-nan(outside op domain)")
             try:
@@ -190,7 +192,9 @@ class C01(Prop):
         full = exprs(Opts(max_depth=d), None)
         reals = exprs(Opts(reals=True, max_depth=d), None)
         edge = exprs(Opts(edge=True, max_depth=d, ops_unary=("neg", "abs", "exp", "tanh", "sigmoid"), ops_binary=("add", "mul", "max", "min", "logaddexp", "sub")), ("real", ()))
-        return st.one_of(core, full, full, reals, edge)
+        # point masses and Constant wrappers (reference semantics in vf/lang.py; Delta points are offered as evaluation points)
+        pm = exprs(Opts(reals=True, max_depth=2, deltas=True, consts=True, max_names=3), ("real", ()))
+        return st.one_of(core, full, full, reals, edge, pm)
 
     def describe(self, case):
         return show(case)
